@@ -85,6 +85,20 @@ chk("C12",
     "machine-checked proof in Coq (loop exit/invariant by induction on fuel; list-indexing algebra) + translator/row-identity correspondence",
     "DESIGN.md section 6, C12")
 
+chk("C17",
+    "Coq theorems over a heap model (arrays = locations, caller may overwrite anything it holds): for every "
+    "interleaving of set/get/commit/export/import/results operations, under the copy/share policy extracted from "
+    "the source, owned and caller-held arrays are disjoint (invariant by induction over the op list); a caller "
+    "overwrite changes no current value, no committed batch and no cached result; no operation alters the contents "
+    "of an owned array; only commit/import change the history structure and commit appends exactly one batch per set "
+    "key. Pinned-tree policy refuted by vm_compute witnesses. Tie: Gen.Alias policy + Link; the heap model is run "
+    "against a real StateManager on random op sequences comparing the real alias graph (np.shares_memory) and "
+    "contents after every op; Sampler.sample/results/posterior overwrite tests.",
+    "Trusted: Coq kernel/vm_compute; python translator/harness; numpy copy/concatenate/fancy-indexing allocate fresh "
+    "buffers; set_current(copy=False) excluded (documented ownership transfer).",
+    "machine-checked proof in Coq (heap invariant by induction over operation sequences) + translator/alias-graph correspondence",
+    "DESIGN.md section 6, C17")
+
 for pid in [f"C{i:02d}" for i in range(1, 21)]:
     if pid not in CHECKS:
         NA[pid] = "check not built yet in this session (planned in DESIGN.md section 6); not claimed"
